@@ -30,8 +30,24 @@ class CostSensitiveLogistic(LogisticRegression):
         return self.classes_[numpy.argmax(P, axis=1)]
 
 
+class NanOutsideRange(BaseEstimator, RegressorMixin):
+    """A regressor that answers NaN for a row whose first feature lies outside the range it was trained on (an
+    isotonic regression with out_of_bounds='nan', a radius-neighbours model without neighbour), the mean otherwise."""
+
+    def fit(self, X, y, sample_weight=None):
+        v = numpy.asarray(X, dtype=float)[:, 0]
+        self.lo_, self.hi_ = float(v.min()), float(v.max())
+        self.mean_ = float(numpy.average(y, weights=sample_weight))
+        return self
+
+    def predict(self, X):
+        v = numpy.asarray(X, dtype=float)[:, 0]
+        return numpy.where((v < self.lo_) | (v > self.hi_), numpy.nan, self.mean_)
+
+
 def _inner(kind):
     return {
+        "nan-outside": NanOutsideRange,
         "cost-logistic": lambda: CostSensitiveLogistic(max_iter=200),
         "linear": LinearRegression,
         "dummy-reg": DummyRegressor,
